@@ -120,10 +120,10 @@ Theorem sites_match :
 Proof. exact sites_match_all. Qed.
 Print Assumptions sites_match.
 
-(* the reachable set of the skeleton, computed inside Coq (9475 states), contains every
+(* the reachable set of the skeleton, computed inside Coq (10341 states), contains every
    reachable state *)
 Theorem skeleton_reach_closed :
-  (forall s, reach s -> In s states) /\ N.of_nat (List.length states) = 9475%N.
+  (forall s, reach s -> In s states) /\ N.of_nat (List.length states) = 10341%N.
 Proof. exact (conj reach_closed states_size). Qed.
 Print Assumptions skeleton_reach_closed.
 
@@ -151,10 +151,10 @@ Theorem close_no_deadlock :
 Proof. exact close_no_deadlock_all. Qed.
 Print Assumptions close_no_deadlock.
 
-(* after Close, a path that never declines an enabled closeCh alternative has at most 28
+(* after Close, a path that never declines an enabled closeCh alternative has at most 30
    steps, and where it stops all three loops are done and Close has returned *)
 Theorem close_bounded_without_declines :
-  (forall l s, reach s -> closed s = true -> is_nd_path s l -> (List.length l <= 28)%nat) /\
+  (forall l s, reach s -> closed s = true -> is_nd_path s l -> (List.length l <= 30)%nat) /\
   (forall s, reach s -> closed s = true -> nd_succs s = [] -> final s = true).
 Proof. exact (conj nd_paths_bounded_all nd_stuck_is_final). Qed.
 Print Assumptions close_bounded_without_declines.
